@@ -18,7 +18,7 @@ TESTS=$(bash /verif/tools/baseline_off.sh "$WT" | tail -1)
 echo "[$ID] demo clean rc=$CLEAN mutated rc=$MUT ; $TESTS"
 RES=""
 for P in "$@"; do
-  L=$(VERIF_REPO="$WT" timeout 1800 python3 /verif/tools/check.py "$P" --tier quick 2>&1 | grep -E "^VIOLATION|^KNOWN-FINDING|\[verif\] $P" | head -4 | tr '\n' ' ')
+  L=$(VERIF_EVIDENCE_DIR=/var/tmp/verif_side_evidence VERIF_REPO="$WT" timeout 1800 python3 /verif/tools/check.py "$P" --tier quick 2>&1 | grep -E "^VIOLATION|^KNOWN-FINDING|\[verif\] $P" | head -4 | tr '\n' ' ')
   echo "[$ID] $P: $L"
   if echo "$L" | grep -q "VIOLATION"; then RES="$RES $P:caught"; else RES="$RES $P:missed"; fi
 done
